@@ -101,6 +101,30 @@ class SDelta:
     def __init__(self, e):
         self.e = e
 
+    @property
+    def days(self):
+        """whole days, rounded towards minus infinity as datetime.timedelta/pd.Timedelta do (z3 integer division by a
+        positive constant is the floor)"""
+        return SInt(self.e / DAY)
+
+    def total_seconds(self):
+        return SInt(self.e)
+
+    def _cmp(self, o, f):
+        return SBool(f(self.e, o.e if isinstance(o, SDelta) else z3.IntVal(int(o.total_seconds()))))
+
+    def __lt__(self, o):
+        return self._cmp(o, lambda a, b: a < b)
+
+    def __le__(self, o):
+        return self._cmp(o, lambda a, b: a <= b)
+
+    def __gt__(self, o):
+        return self._cmp(o, lambda a, b: a > b)
+
+    def __ge__(self, o):
+        return self._cmp(o, lambda a, b: a >= b)
+
 
 def timedelta(days=0):
     if isinstance(days, SReal):
